@@ -38,6 +38,8 @@ TEMPLATES = {
     ('cpp', 'support'): 'src/nunavut/lang/cpp/support/serialization.j2',
 }
 FILTER = 'to_static_assertion_value'
+LOCAL_INCLUDE = '"verif_%s.hpp"'             # value of an *_include option: a quoted include path
+SPECIAL_SUFFIX = ' /* 100% "q" \\a */'       # harmless in code (a comment), hostile inside a string literal
 MESSAGE = 'different language options'
 
 
@@ -247,7 +249,8 @@ def scan_keyset(lang: str, kind: str, text: str) -> typing.Tuple[typing.Optional
     if kind == 'support' and lang == 'cpp':
         sym = '::'.join(_namespaces(text[:m.start()], where) + [sym])
     blanked = text[:lo] + re.sub(r'[^\n]', ' ', text[lo:hi]) + text[hi:]
-    return {'symbol': sym, 'unless_omit': unless_omit}, blanked
+    msg_exprs = [_norm(e) for e in re.findall(r'\{\{\s*(.*?)\s*\}\}', m.group('msg'), re.S)] if kind == 'type' else []
+    return {'symbol': sym, 'unless_omit': unless_omit, 'msg_exprs': msg_exprs}, blanked
 
 
 def scan_loop(lang: str, kind: str, text: str) -> dict:
@@ -326,6 +329,7 @@ def scan_loop(lang: str, kind: str, text: str) -> dict:
         e = re.sub(r'\b%s\b' % re.escape(valvar), 'value', e)
         return e
 
+    msg_exprs: typing.List[str] = []
     if kind == 'type':
         am = re.search(r'static_assert\(\s*(?P<lhs>[^\n]+?)\s*==\s*\{\{\s*(?P<val>[^}]+?)\s*\}\}\s*,(?P<msg>.*?)\)\s*;', body, re.S)
         if not am or am.start() > body.index(FILTER):
@@ -336,6 +340,8 @@ def scan_loop(lang: str, kind: str, text: str) -> dict:
             raise Unsupported('%s: more than one static_assert in the loop' % where)
         lhs = am.group('lhs')
         val = am.group('val')
+        # every template expression interpolated inside the string literals of the message
+        msg_exprs = [canon(e) for e in re.findall(r'\{\{\s*(.*?)\s*\}\}', am.group('msg'), re.S)]
     elif lang == 'c':
         am = re.search(r'^[ \t]*#[ \t]*define[ \t]+(?P<lhs>\{\{[^\n]+?\}\})[ \t]+\{\{\s*(?P<val>[^}]+?)\s*\}\}[ \t]*$', body, re.M)
         if not am:
@@ -361,7 +367,8 @@ def scan_loop(lang: str, kind: str, text: str) -> dict:
     if keyset is not None and keyset['unless_omit'] != unless_omit:
         raise Unsupported('%s: the key-set fingerprint and the option loop are not under the same omit condition' % where)
     return {'iter': iter_expr, 'skip': sorted(set(skip)), 'name': name, 'value': val, 'unless_omit': unless_omit,
-            'keyset': keyset['symbol'] if keyset else None}
+            'keyset': keyset['symbol'] if keyset else None,
+            'msg_exprs': sorted(set(msg_exprs + (keyset['msg_exprs'] if keyset else [])))}
 
 
 # ---------------------------------------------------------------------------------------------
@@ -475,6 +482,12 @@ def load_facts() -> dict:
             for g in groups[other].values():
                 if k in g and type(g[k]) is type(dv):
                     vals.append(g[k])
+            # quoted-include form (docs/languages.rst) with a header the check can provide, and free text containing the
+            # characters that are special inside a C string literal
+            if k.endswith('_include') and isinstance(dv, str):
+                vals.append(LOCAL_INCLUDE % k)
+            if k == 'cast_format' and isinstance(dv, str):
+                vals.append(dv + SPECIAL_SUFFIX)
             # free-text options: the same text written with different spacing is a different value
             vals += [''.join(v.split()) for v in list(vals) if isinstance(v, str) and v != ''.join(v.split())]
             uniq = []
@@ -509,9 +522,10 @@ def load_facts() -> dict:
 
 
 def _coq_side(name: str, s: dict) -> str:
-    return ('Definition %s : side :=\n  {| sd_iter := %s;\n     sd_skip := [%s];\n     sd_name := %s;\n     sd_value := %s;\n     sd_unless_omit := %s;\n     sd_keyset := %s |}.'
+    return ('Definition %s : side :=\n  {| sd_iter := %s;\n     sd_skip := [%s];\n     sd_name := %s;\n     sd_value := %s;\n     sd_unless_omit := %s;\n     sd_keyset := %s;\n     sd_msg_exprs := [%s] |}.'
             % (name, coq_str(s['iter']), '; '.join(coq_str(k) for k in s['skip']), coq_str(s['name']), coq_str(s['value']),
-               'true' if s['unless_omit'] else 'false', ('Some %s' % coq_str(s['keyset'])) if s['keyset'] else 'None'))
+               'true' if s['unless_omit'] else 'false', ('Some %s' % coq_str(s['keyset'])) if s['keyset'] else 'None',
+               '; '.join(coq_str(e) for e in s['msg_exprs'])))
 
 
 def gen_optguard() -> typing.Tuple[bool, str]:
